@@ -1964,6 +1964,17 @@ pub fn c10locks(repo: &Path) -> Result<String, String> {
     if lf.out.len() < 40 {
         return Err(format!("only {} functions found in src/value/list.rs", lf.out.len()));
     }
+    let scanned_list_fns = lf.out.len();
+    // `StringBuf` (src/value/string_buf.rs) is the other built-in type behind an `Arc<Mutex<..>>`: its
+    // methods and its `==` run below compiled code too.  The host cannot name the type (it is not
+    // exported), so a StringBuf never crosses threads: its functions are marked `threadLocal`
+    // (what has to hold for them is that a call never waits for itself: `a == a`).
+    let string_buf = find::parse(repo, "src/value/string_buf.rs")?;
+    lf.visit_file(&string_buf);
+    let buf_owner = |owner: &str| owner == "StringBuf" || owner.ends_with("_for_StringBuf");
+    // read, not assumed: src/lib.rs (the crate's public surface; `mod value` is private) does not mention
+    // the type.  If it ever does, the functions count as reached by several threads (`reachedByBuiltins`).
+    let buf_exported = std::fs::read_to_string(repo.join("src/lib.rs")).map_err(|e| format!("src/lib.rs: {e}"))?.contains("StringBuf");
     // helpers: functions that hand out a guard (their single acquisition is charged to the caller)
     let none = BTreeMap::new();
     let mut helpers: BTreeMap<String, (&'static str, &'static str)> = BTreeMap::new();
@@ -2056,10 +2067,10 @@ pub fn c10locks(repo: &Path) -> Result<String, String> {
         }
         Calls(&mut called).visit_block(&f.body);
     }
-    let mut out = header("C10Locks", &["src/value/list.rs", "src/runtime/basic.rs"])
+    let mut out = header("C10Locks", &["src/value/list.rs", "src/value/string_buf.rs", "src/runtime/basic.rs"])
         .replace("import RotoV.Model.Clif\n", "import RotoV.Model.Clif\nimport RotoV.Model.MutexPanic\n");
     out.push_str("open RotoV.MutexPanic\n\n");
-    out.push_str(&format!("/-- functions scanned in src/value/list.rs (outside `mod tests`) -/\ndef scannedListFns : Nat := {}\n\n", lf.out.len()));
+    out.push_str(&format!("/-- functions scanned in src/value/list.rs (outside `mod tests`) -/\ndef scannedListFns : Nat := {}\n\n", scanned_list_fns));
     out.push_str(&format!("/-- guard-returning helpers resolved at their call sites -/\ndef guardHelpers : List String := [{}]\n\n",
         by_method.keys().map(|k| format!("\"{k}\"")).collect::<Vec<_>>().join(", ")));
     out.push_str("inductive LockFn where\n");
@@ -2080,7 +2091,11 @@ pub fn c10locks(repo: &Path) -> Result<String, String> {
         let is_binding = owner == "binding";
         let host_called = !is_erased && !is_binding && owner.contains("List") && !owner.contains("RawList")
             && called.iter().any(|m| base.ends_with(&format!("_{m}")));
-        out.push_str(&format!("  | .{c} => {}\n", is_erased || is_ffi || is_binding || host_called));
+        out.push_str(&format!("  | .{c} => {}\n", is_erased || is_ffi || is_binding || host_called || (buf_owner(owner) && buf_exported)));
+    }
+    out.push_str("\n/-- functions of `StringBuf` (src/value/string_buf.rs): reached by compiled code (methods, `==`), but the\n    type is not exported to the host, so a value never crosses threads -/\ndef LockFn.threadLocal : LockFn → Bool\n");
+    for (c, owner, _) in &rows {
+        out.push_str(&format!("  | .{c} => {}\n", buf_owner(owner) && !buf_exported));
     }
     out.push('\n');
     out.push_str(&footer("C10Locks"));
